@@ -413,7 +413,10 @@ class Channel(ClosingContextManager):
         .. versionadded:: 1.2
         """
         # in many cases, the channel will not still be open here.
-        # that's fine.
+        # that's fine -- but once we have sent our CLOSE nothing more may be
+        # sent on it (the peer may already have released or re-used the id).
+        if self.closed:
+            return
         m = Message()
         m.add_byte(cMSG_CHANNEL_REQUEST)
         m.add_int(self.remote_chanid)
